@@ -318,7 +318,7 @@ def _run_symext(ctx, spec, rng):
     if ans is FAILED:
         return
     site = tracer.last_site("has_symmetric_extension")
-    branch = "sdp-branch" if site and "isclose" in site else "shortcut-branch"
+    branch = f"sdp-branch,{'N>6' if da * db > 6 else 'N<=6'},ppt={ppt}" if site and "isclose" in site else "shortcut-branch"
     ctx.check("O4:symmetric-extension-accepts-separable", bool(ans) is True, sig=(da, db, level, cplx, ppt, kind), nt=True,
               mech=f"has_symmetric_extension:rejects-separable-state[{branch}]", detail={"dims": [da, db], "level": level, "ppt": ppt, "kind": kind, "return_site": site})
     ctx.sample("O4:symmetric-extension-accepts-separable", {"dims": [da, db], "level": level, "answer": bool(ans), "return_site": site})
